@@ -281,12 +281,62 @@ pub fn run(ctx: &Ctx) -> Report {
             rep.violations += bad.len() as u64 - 3;
         }
     }
-    rep.rule = "every text of <=k lines of length 0..=m over the alphabet, joined by CR LF, fed whole and per char to an unlimited-scrollback terminal of every width 1..W and height 1..H; oracle: text() and TextUnwrapper(lines()) equal the right-trimmed input lines (trailing empty lines ignored), hence equal across widths; plus the line x?y?z for every printable Unicode scalar ? at widths 1,2,3,7; plus EVERY line count 1..=1400 (thorough 5000, and around 2^13..2^16, 10000, 11000, 22000, 66635) of numbered lines at 7x3, 3x2 and 20x5; non-trivial = runs where a line is longer than the width or there are more lines than rows".into();
+    // one long call of multi-byte characters: whatever block size an implementation may
+    // read its input in, some character straddles a block boundary
+    {
+        let t0 = Instant::now();
+        let unit = "\u{e9}\u{20ac}\u{1F600}\u{6f22}x"; // 2-, 3-, 4-, 3-, 1-byte
+        let nlines = ctx.tier.pick(3400usize, 20000usize);
+        let mut straddled: std::collections::BTreeSet<u32> = Default::default();
+        let mut bad: Option<(usize, usize, String)> = None;
+        let mut runs = 0u64;
+        'pads: for pad in 0..6usize {
+            let mut lines: Vec<String> = vec!["p".repeat(pad)];
+            for i in 0..nlines {
+                lines.push(format!("{}{}", unit.repeat(4), i % 10));
+            }
+            let input = lines.join("\r\n");
+            for k in 8..=20u32 {
+                let b = 1usize << k;
+                if b < input.len() && !input.is_char_boundary(b) {
+                    straddled.insert(k);
+                }
+            }
+            for (w, h) in [(7usize, 3usize), (21, 4), (64, 5)] {
+                runs += 1;
+                let err = match guarded(|| check_one(&lines, w, h, false)) {
+                    Ok(Ok(_)) => None,
+                    Ok(Err(e)) => Some(e),
+                    Err(m) => Some(format!("panic: {}", m)),
+                };
+                if let Some(e) = err {
+                    let short: String = e.chars().take(200).collect();
+                    bad = Some((pad, w, short));
+                    break 'pads;
+                }
+            }
+        }
+        rep.transitions += runs;
+        rep.evaluations += runs;
+        rep.traces_validated += runs;
+        rep.distinct_nontrivial += runs;
+        rep.parts.push(json!({"part":"long-call-of-multibyte-characters","lines":nlines,"pads":6,"runs":runs,
+            "powers_of_two_with_a_character_across_them": straddled.iter().collect::<Vec<_>>(),"violating": bad.is_some() as u32,"wall_s":t0.elapsed().as_secs_f64()}));
+        println!("part long-call-of-multibyte-characters: {} runs, byte offsets 2^k with a character across them: {:?}, {} violating ({:.1}s)", runs, straddled, bad.is_some() as u32, t0.elapsed().as_secs_f64());
+        if let Some((pad, w, e)) = bad {
+            emit_violation(ctx, &mut rep, "C09", json!({"part":"long-call-of-multibyte-characters","pad":pad,"cols":w,"oracle":"text-reproduced","observed":e}));
+        }
+    }
+    rep.rule = "every text of <=k lines of length 0..=m over the alphabet, joined by CR LF, fed whole and per char to an unlimited-scrollback terminal of every width 1..W and height 1..H; oracle: text() and TextUnwrapper(lines()) equal the right-trimmed input lines (trailing empty lines ignored), hence equal across widths; plus the line x?y?z for every printable Unicode scalar ? at widths 1,2,3,7; plus EVERY line count 1..=1400 (thorough 5000, and around 2^13..2^16, 10000, 11000, 22000, 66635) of numbered lines at 7x3, 3x2 and 20x5; plus one call of 3400 (thorough 20000) lines of 2-, 3- and 4-byte characters at six alignments (a character straddles every power-of-two byte offset up to the input length); non-trivial = runs where a line is longer than the width or there are more lines than rows".into();
     rep.assumptions = vec!["characters limited to the listed alphabets; every char occupies one cell in avt".into()];
     rep
 }
 
-pub fn replay(_ctx: &Ctx, v: &Value) -> bool {
+pub fn replay(ctx: &Ctx, v: &Value) -> bool {
+    if v["part"] == "long-call-of-multibyte-characters" {
+        let c2 = Ctx { id: ctx.id.clone(), tier: Tier::Quick, seed: 0, start: ctx.start, known: ctx.known.clone(), replay_dir: format!("{}/again", ctx.replay_dir) };
+        return run(&c2).violations > 0;
+    }
     let lines: Vec<String> = v["lines"].as_array().unwrap().iter().map(|x| x.as_str().unwrap().to_string()).collect();
     let r = check_one(
         &lines,
